@@ -40,6 +40,13 @@ PROP = dict(
           "'\\n' in the documented while(!end()) loop on every text up to 5000 bytes (a quarter of those up to 40000): the sequence must be the reference "
           "lines, one CR before an LF accepted as kept or removed; and with a second delimiter (CR or 'a') on texts up to 2500 bytes: the pieces between "
           "its occurrences. The lines part has line lengths 998..1003, 2001..2005, 2999, 3000 and random up to 3000 in addition. "
+          "Symbolic links (op 'sl'; the links are made by the harness with symlink(2) inside the temp directory): the file is read through "
+          "c17_link.dat -> c17_main.dat, or written through the link (File::put, TextFile::write / append, File opened APPEND) and then verified through "
+          "the real path and through the link (size, content, firstBytes, read, text, lines, isFile); copy / move into a directory may name the directory "
+          "through a symbolic link (bit 3). Self-moves (op 'ms'): Directory::move / File::move of the file onto itself under another spelling (dir+'/', "
+          "'/./', 'sub/../', '//', relative source with absolute destination) must return true and leave the file untouched, as the unchanged library "
+          "does; moves onto an existing different file / into a directory holding another file of that name replace it. (Directory::copy of a file onto "
+          "itself is not generated: the unchanged library truncates the file, as fopen(\"wb\") on the source does.) "
           "Non-trivial: hist - a phase leaves >= 255 bytes in the file or appends after a reopen or queries an open writer and writes on; bomlong - all; lines - a raw line of >= 254 bytes (crosses the "
           "255-byte fgets chunk) or CRLF and lone CR in one text; bom - a supplementary-plane scalar or a CR LF pair; copy and grid - all. Distinct = "
           "distinct FNV-1a hash of the serialised case."),
